@@ -442,26 +442,31 @@ class Slicer:
                     out.add("aggr:%s::%s" % (s[1], s[2]))
         return out
 
-    def expand(self, e, depth=40):
-        """substitute named non-parameter locals that have exactly one definition by that definition"""
+    def expand(self, e, depth=40, stop=()):
+        """substitute named non-parameter locals that have exactly one definition by that definition
+        (names in `stop` are kept)"""
         if depth <= 0 or not isinstance(e, tuple) or not e or not isinstance(e[0], str):
             return e
         b = self.body
         if e[0] == "var":
             params = set(b.names.get(l, "arg%d" % l) for l in range(1, b.argc + 1))
             upv = set(n for _, n in b.named_places)
-            if e[1] not in params and e[1] not in upv:
+            if e[1] not in params and e[1] not in upv and e[1] not in stop:
                 ds = self.var_defs().get(e[1], [])
                 if len(ds) == 1 and ds[0][0] == "":
-                    inner = self.expand(ds[0][1], depth - 1)
-                    return inner if not e[2] else ("proj", inner, e[2])
+                    inner = self.expand(ds[0][1], depth - 1, stop)
+                    if not e[2]:
+                        if inner[0] == "proj" and len(inner) == 3 and len(e) > 3:
+                            inner = inner + (e[3],)
+                        return inner
+                    return ("proj", inner, e[2]) + ((e[3],) if len(e) > 3 else ())
             return e
         out = []
         for x in e:
             if isinstance(x, tuple) and x and isinstance(x[0], str):
-                out.append(self.expand(x, depth - 1))
+                out.append(self.expand(x, depth - 1, stop))
             elif isinstance(x, tuple):
-                out.append(tuple(self.expand(y, depth - 1) if isinstance(y, tuple) and y and isinstance(y[0], str) else y for y in x))
+                out.append(tuple(self.expand(y, depth - 1, stop) if isinstance(y, tuple) and y and isinstance(y[0], str) else y for y in x))
             else:
                 out.append(x)
         return tuple(out)
